@@ -102,6 +102,13 @@ func (in *Interp) timeNs(v Value) *Term {
 }
 
 func (in *Interp) now() *Term {
+	if in.cur != nil && in.cur.id < 0 {
+		// package initialisers (e.g. random seeds) get their own instant outside the now#k sequence
+		t := in.freshInput("initnow", 64)
+		in.assumeTerm(in.tb.Cmp(OpSlt, in.tb.Const(1<<40, 64), t))
+		in.assumeTerm(in.tb.Cmp(OpSlt, t, in.tb.Const(1<<61, 64)))
+		return t
+	}
 	if in.nowT == nil {
 		in.nowT = in.freshInput("now", 64)
 		// instants stay well inside the int64 range and after the zero time
